@@ -10,7 +10,7 @@ CLAIMS = {
  'C03': ('Verus: one unit cost per lot used by same-day, 30-day and pooling; same-day legs consume lots proportionally so leg cost == sum(consumed_k * unit_k); pooled cost == cost of exactly the shares marked in_pool; S104 leg cost leaves the pool; capital-return/accumulation offsets sum to exactly the adjustment.',
          'END-TO-END (INV_COST closed): Matcher::process carries, through every loop of the day cycle and for every security, legs + pool + unallocated - pending 30-day claims == cost of all lots, with every lot equal to its BUY line incl. its capital-return offset (inv_lots); at the end nothing is unallocated and no claim is pending, so cost of all legs + closing pool cost == sum over the lots of quantity x unit cost. Relative to the PREPROCESSED list (that same-day merging conserves shares, consideration and fees per (date, security, side) is proved separately: C04.merge), to quantity x unit cost == quantity x price + fees + offset (false only for a zero-quantity BUY with fees, whose fees the tool drops), and to A-dec (28-digit rounding of * and / is not modelled). That every BUY has exactly one lot is proved per day (buys_added_all), not yet as a global bijection.'),
  'C05': ('Verus: (sound direction, END-TO-END) Matcher::process carries, per security, acquisitions less disposals to date rescaled by the splits that have taken effect (spec net_state/net_total, a fold over the date-ordered line list) and returns Ok only if that position is non-negative at the close of every day (covered_upto) - so a report is produced only when every sale is covered, whatever the 30-day rule matched (repair 364008a of defect F2). process_sell returns Err before any state change when the sale exceeds same-day availability + pool quantity; legs of an accepted sale sum to the quantity sold; an Err from conversion or from the matcher means no report (calculate).',
-         'Completeness direction (covered ledgers are never refused, C05.complete), per refusal site of the matcher after the cost pre-pass: process_sell returns Ok whenever the sale is covered by same-day ledger + pool (no unmatched remainder is possible then); in Matcher::process a covered ledger (covered_upto over the whole list) makes every sale pass that check (INV_POS: same-day ledger + pool >= position >= quantity sold) and never trips the position check of repair 364008a; the reservation-overflow refusal is unreachable for every ledger; pooling and corporate actions never refuse. These are site-wise obligations, not one post-condition of process: the refusals of the pre-pass (non-positive split ratio, capital return larger than the cost - the statement's \'other obstacles\') are not characterised. C05.sound is stated over the sorted-and-merged list preprocess returns (its per-(date, security, side) share totals are proved equal to the input\'s; that SPLIT lines pass through unchanged is not proved). CLI/MCP front-ends are A-ext.'),
+         'Completeness direction (covered ledgers are never refused, C05.complete), per refusal site of the matcher after the cost pre-pass: process_sell returns Ok whenever the sale is covered by same-day ledger + pool (no unmatched remainder is possible then); in Matcher::process a covered ledger (covered_upto over the whole list) makes every sale pass that check (INV_POS: same-day ledger + pool >= position >= quantity sold) and never trips the position check of repair 364008a; the reservation-overflow refusal is unreachable for every ledger; pooling and corporate actions never refuse. These are site-wise obligations, not one post-condition of process: the refusals of the pre-pass (non-positive split ratio, capital return larger than the cost - the statement\'s other obstacles) are not characterised. C05.sound is stated over the sorted-and-merged list preprocess returns (its per-(date, security, side) share totals are proved equal to the input\'s; that SPLIT lines pass through unchanged is not proved). CLI/MCP front-ends are A-ext.'),
  'C09': ('Verus frame clauses: every mutating matcher function changes ledgers/pools only at the transaction\'s own ticker; the look-ahead changes claims only at same-ticker buys in the window.',
          'Frames of each step; the projection equality report(all) = (+) report(S) is the L3 closure and is not machine-checked; ticker case folding in parser/serde is A-ext.'),
  'C10': ('Verus: SPLIT multiplies and UNSPLIT divides the pool quantity only (cost, ledgers, legs, other tickers untouched); look-ahead quantities are rescaled by the cumulative ratio of the splits dated from the disposal day up to, not including, the acquisition\'s day (repairs 218dd93 and 551d6d1) and costed in buy-time units.',
